@@ -29,14 +29,14 @@ structure Tx where
   id : Nat
   sender : Addr
   dest : String
-  token : Token
+  token : Nat
   amount : Nat
   fee : Nat
   deriving DecidableEq, Repr, Inhabited
 
 structure Batch where
   nonce : Nat
-  token : Token
+  token : Nat
   txs : List Tx
   timeout : Nat
   block : Nat
